@@ -14,7 +14,7 @@ from pddl_plus_parser.exporters import TrajectoryExporter
 from pddl_plus_parser.lisp_parsers import TrajectoryParser
 
 
-WEIGHTS = {"mixed": [2, 5, 1, 3, 1, 2, 2, 1, 1], "state": [1, 5, 1, 2, 3, 6, 1, 0, 1], "traj": [0, 2, 0, 0, 0, 1, 4, 3, 4]}
+WEIGHTS = {"chain": [3, 8, 1, 3, 0, 0, 2, 0, 0], "mixed": [2, 5, 1, 3, 1, 2, 2, 1, 1], "state": [1, 5, 1, 2, 3, 6, 1, 0, 1], "traj": [0, 2, 0, 0, 0, 1, 4, 3, 4]}
 
 
 def proj_steps(triplets):
